@@ -222,6 +222,75 @@ def bist_bench(name, dw=16, aw=6, force=None, axi=False):
     return b
 
 
+def reset_equiv_bench(name, kind="gen", dw=16, aw=5):
+    """A core reset must rewind generator/checker to their power-up behaviour (otherwise a second run after a reset would generate
+    another sequence than the one the other side uses).  Two copies of the real core get identical inputs; BOTH start from
+    arbitrary, independent register states (the power-up state is one of them) and see reset=1 in the first cycle.  From then on
+    all their outputs (port command/data, done, errors, ticks) must be equal: a reset makes the past irrelevant."""
+    from litedram.frontend.bist import _LiteDRAMBISTGenerator, _LiteDRAMBISTChecker
+    mode = "write" if kind == "gen" else "read"
+    pa = LiteDRAMNativePort(mode, aw, dw)
+    pb = LiteDRAMNativePort(mode, aw, dw)
+    cls = _LiteDRAMBISTGenerator if kind == "gen" else _LiteDRAMBISTChecker
+    A, B = cls(pa), cls(pb)
+
+    class Top(Module):
+        pass
+    top = Top()
+    top.submodules.a = A
+    top.submodules.b = B
+    ashift = log2_int(dw // 8)
+    awidth = aw + ashift
+    consts = {}
+    inputs = {}
+    for n, w in (("BASE", awidth), ("END", awidth), ("LENGTH", awidth), ("RANDOM_DATA", 1), ("RANDOM_ADDR", 1)):
+        c = Signal(w, name_override=n)
+        consts[n] = c
+        for core in (A, B):
+            top.comb += getattr(core, {"BASE": "base", "END": "end", "LENGTH": "length", "RANDOM_DATA": "random_data",
+                                       "RANDOM_ADDR": "random_addr"}[n]).eq(c)
+    first = Signal(reset=1)
+    top.sync += first.eq(0)
+    start = Signal(name_override="start")
+    inputs["start"] = start
+    cready = Signal(name_override="cmd_ready")
+    inputs["cmd_ready"] = cready
+    for core, p in ((A, pa), (B, pb)):
+        top.comb += [core.reset.eq(first), core.start.eq(start & ~first), p.cmd.ready.eq(cready)]
+    if kind == "gen":
+        wready = Signal(name_override="wdata_ready")
+        inputs["wdata_ready"] = wready
+        top.comb += [pa.wdata.ready.eq(wready), pb.wdata.ready.eq(wready)]
+    else:
+        rvalid = Signal(name_override="rdata_valid")
+        rdata = Signal(dw, name_override="rdata_data")
+        inputs.update({"rdata_valid": rvalid, "rdata_data": rdata})
+        top.comb += [pa.rdata.valid.eq(rvalid), pb.rdata.valid.eq(rvalid), pa.rdata.data.eq(rdata), pb.rdata.data.eq(rdata)]
+    bads = {}
+    bad = _bad_adder(top, bads)
+    live = Signal()
+    top.comb += live.eq(~first)
+    bad("done_or_ticks_differ_after_reset", live & ((A.done != B.done) | (A.ticks != B.ticks)))
+    bad("port_command_differs_after_reset", live & ((pa.cmd.valid != pb.cmd.valid) | (pa.cmd.valid & ((pa.cmd.addr != pb.cmd.addr) | (pa.cmd.we != pb.cmd.we)))))
+    if kind == "gen":
+        bad("write_data_differs_after_reset", live & ((pa.wdata.valid != pb.wdata.valid) | (pa.wdata.valid & (pa.wdata.data != pb.wdata.data))))
+    else:
+        bad("error_count_or_read_ready_differs_after_reset", live & ((A.errors != B.errors) | (pa.rdata.ready != pb.rdata.ready)))
+    covers = {}
+    cv = Signal()
+    if kind == "gen":
+        top.comb += cv.eq(live & pa.wdata.valid & pa.wdata.ready & (pa.wdata.data != 0))
+        covers["nonzero_word_written_after_reset"] = cv
+    else:
+        top.comb += cv.eq(live & (A.errors != 0))
+        covers["error_counted_after_reset"] = cv
+    b = bmc.Bench(name, top, inputs, consts=consts, free_all_except=[first], bads=bads, covers=covers,
+                  info=dict(kind=kind, dw=dw, aw=aw))
+    b.info["free_registers"] = len(b.free_init)
+    b.watch = {"a_done": A.done, "b_done": B.done, "a_cv": pa.cmd.valid, "b_cv": pb.cmd.valid, "a_ca": pa.cmd.addr, "b_ca": pb.cmd.addr}
+    return b
+
+
 CONFIGS = {
     "native16_seq_seq": (dict(dw=16, aw=5, force=dict(random_addr=0, random_data=0)), 28, 40, "qt"),
     "native16_rnda_seq": (dict(dw=16, aw=5, force=dict(random_addr=1, random_data=0)), 28, 40, "qt"),
@@ -234,6 +303,8 @@ CONFIGS = {
     "native8": (dict(dw=8, aw=6), 0, 40, "t"),
 }
 BENCHES = {n: partial(bist_bench, n, **c[0]) for n, c in CONFIGS.items()}
+RESET_BENCHES = {"reset_rewinds_generator": dict(kind="gen"), "reset_rewinds_checker": dict(kind="chk")}
+BENCHES.update({n: partial(reset_equiv_bench, n, **kw) for n, kw in RESET_BENCHES.items()})
 
 
 def run(ctx):
@@ -243,6 +314,13 @@ def run(ctx):
                "word is a fresh solver variable (arbitrary contents / arbitrary corruption)")
     ctx.assume("native ports and (axi* benches) LiteDRAMAXIPort with real AW/W/B and AR/R handshakes; the pattern generator/checker "
                "variants and the CSR wrappers are not covered")
+    ctx.assume("reset_rewinds_* benches: product of two copies of the real core, both from arbitrary independent register states, both reset in "
+               "the first cycle, identical settings/start/port responses afterwards (any responses); FIFO storage words are not freed "
+               "(they are unreachable while the FIFO is empty)")
+    for n in RESET_BENCHES:
+        if ctx.only and not ctx.only.search(n):
+            continue
+        ctx.add(n, 14 if ctx.tier == "quick" else 24, timeout=600, diff_cycles=8)
     for n, (kw, kq, kt, tiers) in CONFIGS.items():
         if ctx.only and not ctx.only.search(n):
             continue
